@@ -10,6 +10,7 @@ require (
 	github.com/quic-go/quic-go v0.42.0
 	github.com/rs/zerolog v1.32.0
 	golang.org/x/net v0.22.0
+	gopkg.in/yaml.v3 v3.0.1
 )
 
 require (
@@ -44,7 +45,6 @@ require (
 	golang.org/x/time v0.5.0 // indirect
 	google.golang.org/protobuf v1.33.0 // indirect
 	gopkg.in/natefinch/lumberjack.v2 v2.2.1 // indirect
-	gopkg.in/yaml.v3 v3.0.1 // indirect
 )
 
 replace github.com/IrineSistiana/mosproxy => /repo
